@@ -472,6 +472,10 @@ func Distinct(a, b *Term) bool {
 	if a.Op == "strlit" && b.Op == "strlit" {
 		return a.Name != b.Name
 	}
+	// a function literal / declared function is never the nil function value
+	if a.Op == "closure" && b.Op == "var" && b.Name == "fn!nil" || b.Op == "closure" && a.Op == "var" && a.Name == "fn!nil" {
+		return true
+	}
 	// x + c1 vs x + c2
 	ba, ca := splitAdd(a)
 	bb, cb := splitAdd(b)
@@ -1071,12 +1075,52 @@ func Closure(fn interface{}, name string, s *Sort, bindings ...*Term) *Term {
 	return t
 }
 
+var qdepthCache = map[int]int{}
+
+// quantDepth: nesting depth of quantifiers inside t.
+func quantDepth(t *Term) int {
+	if !HasQuant(t) {
+		return 0
+	}
+	if d, ok := qdepthCache[t.ID]; ok {
+		return d
+	}
+	d := 0
+	for _, a := range t.Args {
+		if x := quantDepth(a); x > d {
+			d = x
+		}
+	}
+	if t.Op == "forall" {
+		d++
+	}
+	qdepthCache[t.ID] = d
+	return d
+}
+
 func Forall(vars []*Term, body *Term) *Term {
 	if body == True || body == False {
 		return body
 	}
 	if len(vars) == 0 {
 		return body
+	}
+	// canonical bound-variable names (by nesting depth) make alpha-equivalent formulas identical
+	{
+		d := quantDepth(body)
+		m := map[*Term]*Term{}
+		nv := make([]*Term, len(vars))
+		for i, v := range vars {
+			c := BoundVar(fmt.Sprintf("bv!%d!%d", d, i), v.S)
+			nv[i] = c
+			if c != v {
+				m[v] = c
+			}
+		}
+		if len(m) > 0 {
+			body = Subst(body, m)
+			vars = nv
+		}
 	}
 	args := append(append([]*Term{}, vars...), body)
 	t := mk("forall", "", uint64(len(vars)), Bool, args...)
